@@ -43,45 +43,46 @@ func runSpecialLeaf(c *core.Ctx) {
 			}
 			arg := stripIface(call.Call.Args[0])
 			ec, ok := arg.(*ssa.Call)
-			if !ok || !ec.Call.IsInvoke() || ec.Call.Method.Name() != "Error" || ec.Call.Value != ssa.Value(errP) {
+			if !ok || !ec.Call.IsInvoke() || ec.Call.Method.Name() != "Error" {
 				return
 			}
+			x := ec.Call.Value
+			if why, ok := sentinelValue(p, x); ok {
+				nA++
+				c.Ob(load.FnName(fn)+": redact.Safe(<sentinel>.Error())", call.Pos(), true, "the text declared safe is the constant text of a standard-library sentinel ("+why+")")
+				return
+			}
+			if x != ssa.Value(errP) {
+				return // typed cases (runtime.Error, syscall.Errno, ...): R-TAINT's contract table
+			}
 			nA++
-			// must be dominated by true(isLeaf) and true(IsAny(err, sentinels))
-			leafOK, anyOK := false, false
-			for b := call.Block(); b != nil && b.Idom() != nil; b = b.Idom() {
-				d := b.Idom()
-				if len(b.Preds) != 1 || b.Preds[0] != d {
+			// The error's own text: safe only when it is a leaf AND its text equals a sentinel's text.
+			// A match by Is/IsAny is not enough: an Is(error) bool method can claim equivalence with any text.
+			lits := dominatingLits(call.Block())
+			leafOK, textOK := hasLit(lits, leafP, false), false
+			for _, l := range lits {
+				bin, ok := l.V.(*ssa.BinOp)
+				if !ok || l.Neg || bin.Op != token.EQL {
 					continue
 				}
-				ifi, ok := d.Instrs[len(d.Instrs)-1].(*ssa.If)
-				if !ok || d.Succs[0] != b {
+				a, b := errorTextOf(bin.X), errorTextOf(bin.Y)
+				if a == nil || b == nil {
 					continue
 				}
-				if ifi.Cond == ssa.Value(leafP) {
-					leafOK = true
+				if b == ssa.Value(errP) {
+					a, b = b, a
 				}
-				if ic, ok := ifi.Cond.(*ssa.Call); ok {
-					if g := sx.Callee(ic); g != nil && g.Name() == "IsAny" && p.InModule(g) && ic.Call.Args[0] == ssa.Value(errP) {
-						all := true
-						for _, e := range varargs(ic.Call.Args[1]) {
-							ld, ok := e.(*ssa.UnOp)
-							if !ok {
-								all = false
-								continue
-							}
-							if _, isG := ld.X.(*ssa.Global); !isG {
-								all = false
-							}
-						}
-						anyOK = all
+				if a == ssa.Value(errP) {
+					if _, ok := sentinelValue(p, b); ok {
+						textOK = true
 					}
 				}
 			}
-			c.Check(leafOK && anyOK, load.FnName(fn)+": redact.Safe(err.Error())", call.Pos(), "only under isLeaf && IsAny(err, package-level sentinels)",
-				"the full text of the error is declared safe outside the isLeaf && IsAny(err, sentinels) guard")
+			c.Check(leafOK && textOK, load.FnName(fn)+": redact.Safe(err.Error())", call.Pos(), "only for a leaf whose text equals a standard-library sentinel's text",
+				"the error's own full text is declared safe on the strength of an Is/IsAny match alone: an error type whose Is(error) bool method claims equivalence with a sentinel (a common idiom) keeps its own, unsafe, message, which is then printed outside redaction markers")
 		})
 	}
+	c.Min("sentinel texts declared safe by special-case printers", nA, 1)
 	// (b) call sites of special-case printers
 	nB := 0
 	pk := p.Pkg("errbase")
@@ -229,4 +230,123 @@ func runSpecialLeaf(c *core.Ctx) {
 	}
 	c.Min("whole-text Safe(err.Error()) sites in special-case printers", nA, 1)
 	c.Min("special-case printer call sites", nB, 1)
+}
+
+// errorTextOf: v is `x.Error()` (interface invoke) - returns x.
+func errorTextOf(v ssa.Value) ssa.Value {
+	call, ok := v.(*ssa.Call)
+	if !ok || !call.Call.IsInvoke() || call.Call.Method.Name() != "Error" {
+		return nil
+	}
+	return call.Call.Value
+}
+
+// sentinelValue: v is the value of a standard-library package-level error variable, read either directly or
+// out of a module-level table whose only assignment is a composite literal of such variables.
+func sentinelValue(p *load.Program, v ssa.Value) (string, bool) {
+	ld, ok := v.(*ssa.UnOp)
+	if !ok || ld.Op != token.MUL {
+		return "", false
+	}
+	switch a := ld.X.(type) {
+	case *ssa.Global:
+		if a.Pkg != nil && !load.IsModPath(a.Pkg.Pkg.Path()) && isStdlibPath(a.Pkg.Pkg.Path()) {
+			return a.Pkg.Pkg.Name() + "." + a.Name(), true
+		}
+	case *ssa.IndexAddr:
+		tl, ok := a.X.(*ssa.UnOp)
+		if !ok || tl.Op != token.MUL {
+			return "", false
+		}
+		g, ok := tl.X.(*ssa.Global)
+		if !ok || g.Pkg == nil || !load.IsModPath(g.Pkg.Pkg.Path()) {
+			return "", false
+		}
+		if sentinelTable(p, g) {
+			return "an element of the table " + g.Pkg.Pkg.Name() + "." + g.Name(), true
+		}
+	}
+	return "", false
+}
+
+// sentinelTable: every store to the package-level slice g, anywhere in the program, happens in its package
+// initializer and stores a slice of an array all of whose elements are loads of standard-library globals;
+// the address of g is never taken otherwise (no element can be replaced).
+func sentinelTable(p *load.Program, g *ssa.Global) bool {
+	stores := 0
+	ok := true
+	for _, fn := range p.ModFuncs() {
+		sx.EachInstr(fn, func(in ssa.Instruction) {
+			for _, op := range in.Operands(nil) {
+				if *op != ssa.Value(g) {
+					continue
+				}
+				switch x := in.(type) {
+				case *ssa.UnOp: // load: element stores through the loaded slice are checked below
+					for _, r := range *x.Referrers() {
+						if ia, isIA := r.(*ssa.IndexAddr); isIA {
+							for _, u := range *ia.Referrers() {
+								if st, isSt := u.(*ssa.Store); isSt && st.Addr == ssa.Value(ia) {
+									ok = false
+								}
+							}
+						}
+					}
+				case *ssa.Store:
+					if x.Addr != ssa.Value(g) || fn.Name() != "init" || fn.Pkg != g.Pkg {
+						ok = false
+						return
+					}
+					stores++
+					sl, isSl := x.Val.(*ssa.Slice)
+					if !isSl {
+						ok = false
+						return
+					}
+					arr, isAl := sl.X.(*ssa.Alloc)
+					if !isAl {
+						ok = false
+						return
+					}
+					n := 0
+					for _, r := range *arr.Referrers() {
+						ia, isIA := r.(*ssa.IndexAddr)
+						if !isIA {
+							continue
+						}
+						for _, u := range *ia.Referrers() {
+							st, isSt := u.(*ssa.Store)
+							if !isSt {
+								continue
+							}
+							n++
+							eld, isLd := st.Val.(*ssa.UnOp)
+							if !isLd {
+								ok = false
+								continue
+							}
+							eg, isG := eld.X.(*ssa.Global)
+							if !isG || eg.Pkg == nil || load.IsModPath(eg.Pkg.Pkg.Path()) || !isStdlibPath(eg.Pkg.Pkg.Path()) {
+								ok = false
+							}
+						}
+					}
+					if n == 0 {
+						ok = false
+					}
+				default:
+					ok = false // address escapes
+				}
+			}
+		})
+	}
+	return ok && stores == 1
+}
+
+func isStdlibPath(path string) bool {
+	first := path
+	if i := strings.Index(path, "/"); i >= 0 {
+		first = path[:i]
+	}
+	return !strings.Contains(first, ".")
 }
